@@ -1,5 +1,6 @@
 import Driver.Thrift
 import Driver.Thrift2
+import Driver.Thrift3
 import Driver.Pb
 import Driver.Idl
 /-
@@ -13,7 +14,7 @@ def answerLine (line : String) : String :=
   else match Sexp.parseLine t with
     | none => "bad-request"
     | some items =>
-      match [Driver.Thrift.answer, Driver.Thrift2.answer, Driver.Pb.answer, Driver.Idl.answer].findSome? (· items) with
+      match [Driver.Thrift.answer, Driver.Thrift2.answer, Driver.Thrift3.answer, Driver.Pb.answer, Driver.Idl.answer].findSome? (· items) with
       | some a => a
       | none => "bad-request"
 
